@@ -6,6 +6,7 @@ import (
 	"time"
 
 	"github.com/twmb/franz-go/pkg/kgo"
+	"github.com/twmb/franz-go/pkg/kmsg"
 
 	"verif.local/ev"
 	"verif/lib/netctl"
@@ -20,6 +21,7 @@ import (
 //	cfg   the producer configuration,
 //	t1    the producing thread's script (three calls),
 //	t2    the disrupting thread's script (up to two calls),
+//	env   what the environment does: a leader move, or a leaderless partition,
 //	gate  after how many of T1's calls T2 starts (T2 is declared first, so on
 //	      the default schedule its calls run as soon as the gate opens: the
 //	      overlap is in the default schedule, not k deviations away).
@@ -92,6 +94,30 @@ func genScenario() *netctl.Scenario {
 			t1 := t1s[x.ChooseOf("t1", t1s)]
 			t2 := t2s[x.ChooseOf("t2", t2s)]
 			gate := x.ChooseOf("gate", []string{"0", "1", "2", "3"})
+			// env: "move" = the ENV thread moves t/0's leader (as in the P scenarios);
+			// "outage0" = t/0 is leaderless for the whole execution (Metadata reports
+			// LEADER_NOT_AVAILABLE, leader -1): records for it stay buffered until the
+			// delivery timeout, or until Close / AbortBufferedRecords fails them.
+			env := x.ChooseOf("env", []string{"move", "outage0"})
+			if env == 1 {
+				x.RespRewrite = func(_ *netctl.Conn, key, _ int16, resp kmsg.Response) kmsg.Response {
+					m, ok := resp.(*kmsg.MetadataResponse)
+					if !ok || key != 3 {
+						return nil
+					}
+					for i := range m.Topics {
+						if m.Topics[i].Topic == nil || *m.Topics[i].Topic != "t" {
+							continue
+						}
+						for j := range m.Topics[i].Partitions {
+							if p := &m.Topics[i].Partitions[j]; p.Partition == 0 {
+								p.ErrorCode, p.Leader = 5, -1 // LEADER_NOT_AVAILABLE
+							}
+						}
+					}
+					return m
+				}
+			}
 
 			c := x.Cluster(2, kfakeSeed()...)
 			c.MoveTopicPartition("t", 0, 0)
@@ -186,10 +212,12 @@ func genScenario() *netctl.Scenario {
 					close(gates[i+1])
 				}
 			})
-			x.Thread("ENV", func(t *netctl.Thread) {
-				t.Step("move-t0-to-b1")
-				c.MoveTopicPartition("t", 0, 1)
-			})
+			if env == 0 {
+				x.Thread("ENV", func(t *netctl.Thread) {
+					t.Step("move-t0-to-b1")
+					c.MoveTopicPartition("t", 0, 1)
+				})
+			}
 		},
 		Done: func(x *netctl.Exec) bool {
 			st := x.Data.(*state)
